@@ -4,7 +4,7 @@
 //! every event pulled from a `NotificationHandle` is appended to that endpoint's log in the order
 //! the scenario driver saw it; nothing is assumed about the order between endpoints.
 use crate::exec::{PerturbExecutor, Shared};
-use crate::proxy::Proxy;
+use crate::proxy::{Link, Proxy, UdpProxy};
 use futures::{FutureExt, StreamExt};
 use litep2p::{
     config::ConfigBuilder as Litep2pConfigBuilder,
@@ -12,7 +12,7 @@ use litep2p::{
     protocol::notification::{
         ConfigBuilder, NotificationError, NotificationEvent, NotificationHandle, NotificationSink, ValidationResult,
     },
-    transport::tcp::config::Config as TcpConfig,
+    transport::{quic::config::Config as QuicConfig, tcp::config::Config as TcpConfig, websocket::config::Config as WsConfig},
     types::{protocol::ProtocolName, ConnectionId},
     Litep2p, Litep2pEvent, PeerId,
 };
@@ -75,6 +75,8 @@ pub struct Cfg {
     pub bystander: bool,
     /// silence (ms) that closes the run while an obligation is still outstanding
     pub tq_ms: u64,
+    /// "tcp" | "ws" | "quic"
+    pub transport: String,
 }
 
 impl Cfg {
@@ -89,6 +91,7 @@ impl Cfg {
             seed: v["seed"].as_u64().unwrap_or(1),
             bystander: v["bystander"].as_bool().unwrap_or(false),
             tq_ms: v["tq_ms"].as_u64().unwrap_or(60_000),
+            transport: v["transport"].as_str().unwrap_or("tcp").to_string(),
         }
     }
 }
@@ -188,10 +191,25 @@ impl Node {
             nodelay: true,
             ..Default::default()
         };
-        let config = Litep2pConfigBuilder::new()
-            .with_keypair(keypair(cfg.seed, idx))
-            .with_notification_protocol(ncfg)
-            .with_tcp(tcp)
+        let b = Litep2pConfigBuilder::new().with_keypair(keypair(cfg.seed, idx)).with_notification_protocol(ncfg);
+        let b = match cfg.transport.as_str() {
+            "ws" => b.with_websocket(WsConfig {
+                listen_addresses: vec!["/ip4/127.0.0.1/tcp/0/ws".parse().unwrap()],
+                connection_open_timeout: Duration::from_secs(2),
+                substream_open_timeout: Duration::from_secs(2),
+                nodelay: true,
+                ..Default::default()
+            }),
+            // quinn's idle timeout = max(connection_open_timeout, 3 s) and no keep-alive pings are sent: 5 s lets an
+            // idle connection live through the short pauses of the scenarios and a black-holed one be noticed soon
+            "quic" => b.with_quic(QuicConfig {
+                listen_addresses: vec!["/ip4/127.0.0.1/udp/0/quic-v1".parse().unwrap()],
+                connection_open_timeout: Duration::from_secs(5),
+                substream_open_timeout: Duration::from_secs(2),
+            }),
+            _ => b.with_tcp(tcp),
+        };
+        let config = b
             .with_executor(executor)
             .with_keep_alive_timeout(Duration::from_secs(600))
             .build();
@@ -200,8 +218,9 @@ impl Node {
         let addr = litep2p.listen_addresses().next().expect("listen address").clone();
         let mut port = 0u16;
         for p in addr.iter() {
-            if let Protocol::Tcp(x) = p {
-                port = x;
+            match p {
+                Protocol::Tcp(x) | Protocol::Udp(x) => port = x,
+                _ => {}
             }
         }
         let listen: SocketAddr = format!("127.0.0.1:{port}").parse().unwrap();
@@ -270,7 +289,7 @@ pub struct Net {
     pub cfg: Cfg,
     pub nodes: Vec<Node>,
     names: HashMap<PeerId, String>,
-    proxy: Proxy,
+    proxy: Link,
     pub max_late_ms: u64,
     t0: Instant,
     pub notes: Vec<String>,
@@ -292,7 +311,11 @@ impl Net {
         if cfg.bystander {
             nodes.push(Node::new("Z", 2, &cfg, t0).await);
         }
-        let proxy = Proxy::start(nodes[1].listen).await;
+        let proxy = if cfg.transport == "quic" {
+            Link::Udp(UdpProxy::start(nodes[1].listen).await)
+        } else {
+            Link::Tcp(Proxy::start(nodes[1].listen).await)
+        };
         let mut names = HashMap::new();
         for n in &nodes {
             names.insert(n.peer, n.name.clone());
@@ -307,7 +330,7 @@ impl Net {
             }
             let peers: Vec<&String> = all.iter().filter(|o| **o != n.name).collect();
             n.push(json!({"e":"reset","ep":n.name,"auto":cfg.auto.contains(&n.name),"peers":peers,"dial":cfg.dial,
-                          "sync":cfg.sync,"async":cfg.asyn,"max":cfg.max,"seed":cfg.seed,"perturb":cfg.perturb}));
+                          "sync":cfg.sync,"async":cfg.asyn,"max":cfg.max,"seed":cfg.seed,"perturb":cfg.perturb,"tr":cfg.transport}));
         }
         let mut net = Net { cfg, nodes, names, proxy, max_late_ms: 0, t0, notes: Vec::new() };
         // X knows Y only through the proxy
@@ -317,9 +340,19 @@ impl Net {
         net
     }
 
+    fn maddr(&self, port: u16, peer: PeerId) -> Multiaddr {
+        let a: Multiaddr = match self.cfg.transport.as_str() {
+            "ws" => format!("/ip4/127.0.0.1/tcp/{port}/ws"),
+            "quic" => format!("/ip4/127.0.0.1/udp/{port}/quic-v1"),
+            _ => format!("/ip4/127.0.0.1/tcp/{port}"),
+        }
+        .parse()
+        .unwrap();
+        a.with(Protocol::P2p(peer.into()))
+    }
+
     fn y_addr(&self) -> Multiaddr {
-        let a: Multiaddr = format!("/ip4/127.0.0.1/tcp/{}", self.proxy.addr.port()).parse().unwrap();
-        a.with(Protocol::P2p(self.nodes[1].peer.into()))
+        self.maddr(self.proxy.addr().port(), self.nodes[1].peer)
     }
 
     /// connect X->Y (through the proxy) and, if present, Z->X; wait until every side reported it
@@ -327,8 +360,7 @@ impl Net {
         let ya = self.y_addr();
         let _ = self.nodes[0].cmd_tx.send(NodeCmd::Dial(ya));
         if self.nodes.len() > 2 {
-            let xa: Multiaddr = format!("/ip4/127.0.0.1/tcp/{}", self.nodes[0].listen.port()).parse().unwrap();
-            let xa = xa.with(Protocol::P2p(self.nodes[0].peer.into()));
+            let xa = self.maddr(self.nodes[0].listen.port(), self.nodes[0].peer);
             let _ = self.nodes[2].cmd_tx.send(NodeCmd::Dial(xa));
         }
         let deadline = Instant::now() + Duration::from_secs(30);
@@ -679,7 +711,9 @@ impl Net {
                     return;
                 }
                 let k = s["k"].as_str().unwrap_or("open");
-                let end = Instant::now() + Duration::from_millis(s["ms"].as_u64().unwrap_or(5000));
+                // a black-holed QUIC connection is noticed only through quinn's idle timeout (5 s here)
+                let scale = if self.cfg.transport == "quic" { 3 } else { 1 };
+                let end = Instant::now() + Duration::from_millis(scale * s["ms"].as_u64().unwrap_or(5000));
                 loop {
                     let v = &self.nodes[i].views[&p];
                     let done = match k {
@@ -714,7 +748,11 @@ impl Net {
                 }
             }
             "unblock" => self.proxy.block(false),
-            "freeze" => self.proxy.freeze(s["on"].as_bool().unwrap_or(true)),
+            "freeze" => {
+                if !self.proxy.freeze(s["on"].as_bool().unwrap_or(true)) {
+                    self.notes.push("freeze not available on this transport".into());
+                }
+            }
             "dial" => {
                 let ya = self.y_addr();
                 let _ = self.nodes[0].cmd_tx.send(NodeCmd::Dial(ya));
